@@ -159,6 +159,9 @@ static struct root roots[] = {
     { "Node", C4_Node_parse_json_as_root, C4_Node_verify_as_root_with_identifier, C4_Node_verify_as_root_with_identifier_and_size },
     { "Req", C4_Req_parse_json_as_root, C4_Req_verify_as_root_with_identifier, C4_Req_verify_as_root_with_identifier_and_size },
     { "Nums", C4_Nums_parse_json_as_root, C4_Nums_verify_as_root_with_identifier, C4_Nums_verify_as_root_with_identifier_and_size },
+    { "Geo", C4_Geo_parse_json_as_root, C4_Geo_verify_as_root_with_identifier, C4_Geo_verify_as_root_with_identifier_and_size },
+    { "Tri", C4_Tri_parse_json_as_root, C4_Tri_verify_as_root_with_identifier, C4_Tri_verify_as_root_with_identifier_and_size },
+    { "Poly", C4_Poly_parse_json_as_root, C4_Poly_verify_as_root_with_identifier, C4_Poly_verify_as_root_with_identifier_and_size },
     { "Fix", C4_Fix_parse_json_as_root, C4_Fix_verify_as_root_with_identifier, C4_Fix_verify_as_root_with_identifier_and_size },
     { 0, 0, 0, 0 }
 };
